@@ -177,9 +177,14 @@ theorem D20_fixed_witness :
     normPattern cfgRaw "\\u٣٣٣٣".toList = .error .syntax ∧
     normPattern cfgRaw "\\U0000００４１".toList = .error .syntax := by decide +kernel
 
-/-- A scanner quirk that the token contract makes visible: the text of a `\N{…}` token is one
-    token, so a `\/` inside it is not normalised under FORCEWIN (str only). -/
-theorem named_hides_sep_witness :
-    normPattern cfgWin "\\N{\\/}".toList = .ok "\\N{\\/}".toList := by decide +kernel
+/-- D38 (repaired by the `fix:` commit cbce5f1): `RE_NORM` matches `\N{…}` as ONE token and `norm_pattern` used to return it unchanged
+    when RAWCHARS is off, so under FORCEWIN a `\/` inside the braces was not normalised for a str pattern (it is for bytes: `RE_BNORM` has
+    no such token): `fnmatch('N{/}', r'\N{\/}', FORCEWIN)` was True for str and False for bytes (C18).  Without RAWCHARS only `\N` is an
+    (ordinary) escape now and the text after it is normalised like the rest; in the token contract `adjOK cfg (.named n) _` is `cfg.raw`.
+    The witness fails again if the defect returns. -/
+theorem D38_fixed_witness :
+    normPattern cfgWin "\\N{\\/}".toList = .ok "\\N{\\\\\\\\}".toList ∧
+    normPattern { cfgWin with isBytes := true } "\\N{\\/}".toList = .ok "\\N{\\\\\\\\}".toList := by
+  decide +kernel
 
 end WcModel.C20
